@@ -97,8 +97,52 @@ pub fn call(letter: &str) -> (String, Vec<u8>) {
             };
             ("stream write into a sink failing at operation 120".into(), b)
         }
+        w if w.starts_with('W') => {
+            // window-cache aliasing alphabet: W<alpha index>_<block-size index>_<signal index>
+            let p: Vec<usize> = w[1..].split('_').map(|x| x.parse().unwrap()).collect();
+            let (alpha, bs, fam) = (WALPHAS[p[0]], WSIZES[p[1]], WFAMS[p[2]]);
+            let cfg = Cfg { alpha: if alpha < 0.0 { None } else { Some(alpha) }, quant_precision: 15, lpc_order: 12, ..d(bs) };
+            (format!("stream stereo 16-bit bs{bs} {fam} window {}", if alpha < 0.0 { "rectangular".to_string() } else { format!("Tukey({alpha:e})") }),
+             stream_for(2, 16, bs, bs * 2 + 40, fam, cfg, Mode::St, 9))
+        }
         _ => ("?".into(), vec![]),
     }
+}
+
+/// Window parameters that a too-coarse cache key could confuse (negative = rectangular): exact zero,
+/// values below / around f32::EPSILON, neighbours at 1 ulp .. 1e-3 of 0 / 0.4 / 1.
+pub const WALPHAS: [f32; 18] = [
+    -1.0, 0.0, 1e-9, 1e-8, 1.1e-7, 1.3e-7, 1e-6, 1e-5, 1e-4, 1e-3, 0.4, 0.400_000_04, 0.400_001, 0.400_1, 0.401, 0.999, 0.999_999_9, 1.0,
+];
+/// Block sizes that share a 16-sample bucket / differ by one / by one bucket.
+pub const WSIZES: [usize; 5] = [256, 255, 241, 272, 257];
+pub const WFAMS: [&str; 2] = ["thresh", "noise_full"];
+
+/// All ordered pairs of window letters that differ in exactly one coordinate class (alpha at one size, or size at
+/// one alpha), for each signal.
+pub fn window_pairs(thorough: bool) -> Vec<Vec<String>> {
+    let mut v = vec![];
+    for f in 0..WFAMS.len() {
+        for a in 0..WALPHAS.len() {
+            for b in 0..WALPHAS.len() {
+                if a != b {
+                    for s in 0..(if thorough { WSIZES.len() } else { 1 }) {
+                        v.push(vec![format!("W{a}_{s}_{f}"), format!("W{b}_{s}_{f}")]);
+                    }
+                }
+            }
+        }
+        for a in [0usize, 1, 3, 10, 17] {
+            for s in 0..WSIZES.len() {
+                for t in 0..WSIZES.len() {
+                    if s != t {
+                        v.push(vec![format!("W{a}_{s}_{f}"), format!("W{a}_{t}_{f}")]);
+                    }
+                }
+            }
+        }
+    }
+    v
 }
 
 pub fn cmd_histexp(_a: &Args) {
@@ -125,11 +169,15 @@ pub fn cmd_history(a: &Args) {
     let extra_random = a.num("random", 0) as usize;
     let seed = a.num("seed", 1);
     let letters: Vec<String> = ["A", "B", "C", "D", "E", "F", "G", "H", "I", "J", "K", "L", "M", "N"].iter().map(|s| s.to_string()).collect();
+    let pairs = if a.flag("pairs") { window_pairs(a.get("tier", "quick") == "thorough") } else { vec![] };
+    let mut wletters: Vec<String> = pairs.iter().flatten().cloned().collect();
+    wletters.sort();
+    wletters.dedup();
     let mut lines = vec![];
     // F[c]: every call alone on a fresh thread (twice, on two different fresh threads)
     let mut reference: BTreeMap<String, String> = BTreeMap::new();
     for round in 0..2 {
-        for l in &letters {
+        for l in letters.iter().chain(wletters.iter()) {
             let l2 = l.clone();
             let (what, bytes) = std::thread::spawn(move || call(&l2)).join().unwrap();
             let dg = fnv(&bytes);
@@ -145,6 +193,7 @@ pub fn cmd_history(a: &Args) {
             all.push((0..8).map(|_| letters[rng.gen_range(0..letters.len())].clone()).collect());
         }
     }
+    all.extend(pairs);
     let mut ncalls = 0usize;
     let mut mismatches = 0usize;
     for (hi, h) in all.iter().enumerate() {
